@@ -33,6 +33,9 @@ class TALLoader:
         return self.vfs.listdir(self.path)
 
     def __getattr__(self, key):
+        # A path step names something in this directory; it cannot leave it.
+        if key in ("", ".", "..") or "/" in key or "\0" in key:
+            raise AttributeError("Key %s not found in %s" % (key, self.path))
         fq = os.path.join(self.path, key)
         if self.vfs.isfile(fq + ".html.tal"):
             with self.vfs.open(
